@@ -82,7 +82,7 @@ def cases(ctx):
     out = []
     for i in range(n):
         txt = program(rng)
-        mode = rng.choice(['file', 'file', 'two-files', 'stdin'])
+        mode = rng.choice(['file', 'file', 'two-files', 'stdin', 'two-files-base'])
         args = ['--imax=%d' % rng.choice([2, 3]), '--istop=unknown', '0']
         if not ctx.quick and rng.random() < 0.2:
             args += ['-t', '4']
@@ -107,6 +107,24 @@ def one(ctx, c, tmp):
             f = os.path.join(tmp, 'f%d.lp' % j)
             open(f, 'w').write(chunk + '\n')
             files.append(f)
+    elif c['mode'] == 'two-files-base':
+        # first file ends inside a final part; the second file starts with rules before any #program line: they belong to
+        # the initial part (every file starts in part initial/base).  Reference: the same program as ONE text.
+        first = c['text'] + '#program final.\n:- &false, a.\n'
+        second = 'zz.\nyy :- not a.\n#program dynamic.\nyy :- \'zz.\n'
+        for j, chunk in enumerate([first, second]):
+            f = os.path.join(tmp, 'g%d.lp' % j)
+            open(f, 'w').write(chunk)
+            files.append(f)
+        ref = os.path.join(tmp, 'ref.lp')
+        open(ref, 'w').write(first + '#program initial.\n' + second)
+        rcr, sor, ser = run_cli([ref], None, c['args'])
+        rcm, som, sem = run_cli(files, None, c['args'])
+        ka = sorted(json.dumps(x) for x in parse_text(sor))
+        kb = sorted(json.dumps(x) for x in parse_text(som))
+        if ka != kb:
+            return 'two input files (the second starting in the initial part without a #program line) print %d answers %s..., the same program as one text prints %d answers %s...' % (
+                len(kb), kb[:1], len(ka), ka[:1]), 'layout'
     else:
         f = os.path.join(tmp, 'f.lp')
         open(f, 'w').write(c['text'])
